@@ -3,6 +3,7 @@ package main
 import (
 	"fmt"
 	"go/ast"
+	"go/token"
 	"go/types"
 	"strings"
 )
@@ -220,6 +221,10 @@ func (c *Ctx) ruleWhoArms(rule string) {
 								good = true
 							}
 						}
+						// the index form: for i := 0; i < len(items); i++ { ... items[i] ... }
+						if fs, ok := n.(*ast.ForStmt); ok && slice != nil && indexLoopOver(ci, fs, slice) {
+							good = true
+						}
 						return true
 					})
 				}
@@ -363,48 +368,47 @@ func (c *Ctx) ruleResponse(rule string) {
 		c.Rep.undecided(rule, "helpers.Response.Send", "missing", "", "Response.Send not found")
 	}
 	if rf := c.P.byObj[kRespResp]; rf != nil {
-		// v, ok := <-ch ; if ok {return v} ; return res
+		// the value received from the stream is the token "received" (its comma-ok result "receivedok"), a read of the
+		// remembered field is the token "stored": Response() returns "received" exactly on the paths where the receive
+		// succeeded and "stored" exactly where the channel was found closed — however the branches and helpers are arranged
 		sr := &seqRule{c: c, rule: rule}
-		info := rf.Info()
-		var okVar, valVar types.Object
-		ast.Inspect(rf.Body, func(n ast.Node) bool {
-			if as, ok := n.(*ast.AssignStmt); ok && len(as.Lhs) == 2 && len(as.Rhs) == 1 {
-				if u, ok := ast.Unparen(as.Rhs[0]).(*ast.UnaryExpr); ok && u.Op.String() == "<-" && selField(info, u.X) == fCh {
-					valVar, okVar = rootIdent(info, as.Lhs[0]), rootIdent(info, as.Lhs[1])
+		sr.exprVal = func(fr *Frame, e ast.Expr) (Value, bool) {
+			info := fr.Fn.Info()
+			switch x := ast.Unparen(e).(type) {
+			case *ast.UnaryExpr:
+				if x.Op.String() == "<-" && selField(info, x.X) == fCh {
+					return Value{Kind: VTok, S: "received"}, true
+				}
+			case *ast.SelectorExpr:
+				if selField(info, x) == fRes {
+					return Value{Kind: VTok, S: "stored"}, true
 				}
 			}
-			return true
-		})
-		sr.condExpr = func(fr *Frame, e ast.Expr, branch bool, ip *Interp, st *State) string {
-			if id, ok := ast.Unparen(e).(*ast.Ident); ok && fr.Fn.Info().ObjectOf(id) == okVar && okVar != nil {
-				return fmt.Sprintf("open=%v", branch)
+			return Value{}, false
+		}
+		sr.condSym = func(fr *Frame, token, rel string) string {
+			if token == "receivedok" {
+				return "open=" + rel
 			}
 			return ""
 		}
-		sr.visit = func(fr *Frame, n ast.Node) string {
-			if ret, ok := n.(*ast.ReturnStmt); ok && len(ret.Results) == 1 && fr.Caller == nil {
-				switch {
-				case rootIdent(info, ret.Results[0]) == valVar && valVar != nil:
-					return "ret:received"
-				case selField(info, ret.Results[0]) == fRes:
-					return "ret:stored"
-				}
-				return "ret:other"
-			}
-			return ""
-		}
+		sr.relevant = func(f *Func) bool { return true }
 		n := 0
 		for _, sg := range sr.segments(rf) {
 			if sg.Kind != "path" {
 				continue
 			}
 			n++
-			good := (sg.has("open=true") && sg.has("ret:received")) || (sg.has("open=false") && sg.has("ret:stored"))
-			c.Rep.check(good && !sg.has("ret:other"), rule, rf.Short(), "Response() returns the wrong value for the channel state", sg.End, "received value while open, stored value once closed",
-				"Response() must return the received value when the receive succeeded and the stored value only when the channel is closed: ["+strings.Join(sg.Syms, " ")+"]")
+			ret := "other"
+			if len(sg.Ret) == 1 && sg.Ret[0].Kind == VTok {
+				ret = sg.Ret[0].S
+			}
+			good := (sg.has("open=true") && ret == "received") || (sg.has("open=false") && ret == "stored")
+			c.Rep.check(good, rule, rf.Short(), "Response() returns the wrong value for the channel state", sg.End, "received value while open, stored value once closed",
+				"Response() must return the received value when the receive succeeded and the stored value only when the channel is closed: returns "+ret+" ["+strings.Join(sg.Syms, " ")+"]")
 		}
-		if n == 0 || okVar == nil {
-			c.Rep.undecided(rule, rf.Short(), "shape", c.P.pos(rf.Body), "Response() is not of the form `v, ok := <-ch`")
+		if n == 0 {
+			c.Rep.undecided(rule, rf.Short(), "shape", c.P.pos(rf.Body), "Response() has no path")
 		}
 	}
 	// per-job responses: NewResponse(1) in the single-job constructors
@@ -417,4 +421,32 @@ func (c *Ctx) ruleResponse(rule string) {
 				"a per-job response must have capacity 1 (0 blocks the pool goroutine until somebody reads; it would hold its slot for ever)")
 		}
 	}
+}
+
+// indexLoopOver: fs is `for i := 0; i < len(s); i++ { ... }` over the slice variable s (ascending, every index once).
+func indexLoopOver(info *types.Info, fs *ast.ForStmt, s types.Object) bool {
+	init, ok := fs.Init.(*ast.AssignStmt)
+	if !ok || len(init.Lhs) != 1 || len(init.Rhs) != 1 {
+		return false
+	}
+	iv := rootIdent(info, init.Lhs[0])
+	if tv := info.Types[init.Rhs[0]]; iv == nil || tv.Value == nil || tv.Value.ExactString() != "0" {
+		return false
+	}
+	cond, ok := ast.Unparen(fs.Cond).(*ast.BinaryExpr)
+	if !ok || cond.Op != token.LSS || rootIdent(info, cond.X) != iv {
+		return false
+	}
+	lc, ok := ast.Unparen(cond.Y).(*ast.CallExpr)
+	if !ok || resolveCallee(info, lc).Builtin != "len" || len(lc.Args) != 1 || rootIdent(info, lc.Args[0]) != s {
+		// the bound may be a local holding len(s)
+		id, isId := ast.Unparen(cond.Y).(*ast.Ident)
+		if !isId {
+			return false
+		}
+		_ = id
+		return false
+	}
+	post, ok := fs.Post.(*ast.IncDecStmt)
+	return ok && post.Tok == token.INC && rootIdent(info, post.X) == iv
 }
